@@ -852,8 +852,10 @@ def check_coarse_lists(case):
         extra = [str(labels[p]) for p in got_pos if p not in want]
         lost = [str(labels[p]) for p in want if p not in got_pos]
         raise Failure('positions', '%s: %d labels selected, %d expected; outside the listed periods: %s; missing: %s' % (what, len(got_pos), len(want), short(extra, 120), short(lost, 120)))
-    if not case['perm'] and got_pos != want:
-        raise Failure('order', '%s: positions %s expected %s' % (what, short(got_pos), short(want)))
+    # a list selector orders the matches by the list: the labels of the first listed period (in index order), then those of the second ...
+    want_order = [q for c in chosen for q in range(case['n']) if periods[q] == c]
+    if got_pos != want_order:
+        raise Failure('order', '%s: positions %s expected %s (key order)' % (what, short(got_pos), short(want_order)))
     long_key = len(chosen) >= 10 * case['n'] ** 0.145
     return {'nt': len(want) < case['n'] and len(chosen) >= 2,
             'cls': ['coarse:' + case['cls'], 'coarse-form:' + case['form'], 'coarse-target:' + case['target'], 'coarse-key:' + ('long' if long_key else 'short'),
